@@ -312,6 +312,16 @@ def handle (memo : Memo) (line : String) : Memo × String :=
         | some (_, []) => (memo, "E ArgError")
         | _ => (memo, "X bad-args")
       | _ => (memo, "X bad-args")
+    | "signrepofile" =>
+      match parseVal args with
+      | some (.j d, r1) => match parseVal r1 with
+        | some (.j k, []) =>
+          (match signRepodataJ C d k with
+           | .ok v => (memo, "B " ++ hexStr (ser v))
+           | .error e => (memo, "E " ++ e.name))
+        | some (_, []) => (memo, "E ArgError")
+        | _ => (memo, "X bad-args")
+      | _ => (memo, "X bad-args")
     | "prim" =>
       match args with
       | ["pub", s] => match parseHexBytes s with
